@@ -56,7 +56,15 @@ def _solve_text(args):
         if seed:
             s.set("random_seed", seed)
         s.from_string(text)
-        r = s.check()
+        # z3's own timeout is not honoured in every phase (a query once ran for 9 CPU-minutes under a 20 s budget): a watchdog interrupts the context
+        import threading
+        dog = threading.Timer(timeout_ms / 1000.0 * 1.1 + 2.0, ctx.interrupt)
+        dog.daemon = True
+        dog.start()
+        try:
+            r = s.check()
+        finally:
+            dog.cancel()
         status = str(r)
         detail = ""
         if status == "unknown":
